@@ -187,9 +187,9 @@ def main():
     jobs = [('<BDD as PartialEq>::eq on canonical diagrams k=3', bddcore.unit_bdd_eq, (3, {}))]
     for bits in ((2, 3) if quick else (2, 3, 4)):
         for op in OPS:
-            jobs.append(('BDDSet::%s bits=%d' % (op, bits), unit_setop, (op, bits, False, {})))
+            jobs.append(('BDDSet::%s bits=%d' % (op, bits), unit_setop, (op, bits, False, dict(timeout=200 if quick else 2500))))
             if op in ('union', 'intersect', 'complement'):
-                jobs.append(('BDDSet::%s bits=%d aliased (same set twice)' % (op, bits), unit_setop, (op, bits, True, {})))
+                jobs.append(('BDDSet::%s bits=%d aliased (same set twice)' % (op, bits), unit_setop, (op, bits, True, dict(timeout=200 if quick else 2500))))
     jobs.append(('selftest:union computes the intersection', unit_setop, ('union', 2, False, dict(mutate=('union', 'BDDEnv::<usize>::or(', 'BDDEnv::<usize>::and(')))))
     rep = run_property(PID, lem, ['and', 'or', 'not'], [], bounds={'bits': '2..3 (4 thorough)', 'states': 'every pair of sets (unknown truth tables), distinct or aliased', 'element': 'any usize'},
                        assumptions=props.COMMON_ASSUME + ['membership of x is defined on the diagram: variable i true iff bit i of x is 0 (the crate\'s categorize, executed from MIR)'],
